@@ -29,7 +29,7 @@ inductive AExp where
   | scale (c : Dec) (a : AExp)      -- `c * a`
   | add (a b : AExp)                -- `a + b`
   | sub (a b : AExp)                -- `a - b`
-  deriving Repr, Inhabited
+  deriving DecidableEq, Repr, Inhabited
 
 inductive Fn where
   | sin | cos | one
@@ -44,7 +44,7 @@ structure Term where
   epow : Nat
   fn : Fn
   arg : AExp
-  deriving Repr, Inhabited
+  deriving DecidableEq, Repr, Inhabited
 
 /-- Row `[D, M, M', F, Σl coefficient, Σr coefficient]` of table 47.A. -/
 structure RowLR where
